@@ -262,12 +262,12 @@ def run(ctx):
     eq = EqContract(ctx)
     eq.probe(rng)
     suites = pb.offered_suites()
-    end = ctx.deadline(200, 1300)
+    end = ctx.deadline(200, 400)
     variants = [("none", False)]
     if ctx.quick:
         passes = 1
     else:
-        passes = 3
+        passes = 6
     k = 0
     stopped = False
     for rep in range(passes):
